@@ -43,6 +43,17 @@ def derived_queries(prog: Program) -> RuleResult:
         params = [p for p in func_params(fn) if p != "self"]
         if len(params) != 2:
             raise AnalysisError(f"{construct}: expected two node parameters")
+        foreign = [c for c in ast.walk(fn) if isinstance(c, ast.Call) and isinstance(c.func, ast.Attribute) and c.func.attr == "get_distance"]
+        if foreign:
+            res.fail(
+                construct,
+                f"`{short(foreign[0])}` delegates to ete3's get_distance, which sums branch LENGTHS (fact table): it equals "
+                "the number of edges only on trees whose branches all have length 1, so full losses are counted wrongly "
+                "as soon as the species Newick carries lengths",
+                mod,
+                foreign[0],
+            )
+            continue
         bad = None
         count = 0
         for a in model.nodes:
@@ -174,6 +185,16 @@ def euler_index(prog: Program) -> RuleResult:
         res.fail(construct, f"`{short(st)}` is not guarded by `node not in self.traversal_index`: a node is indexed by its last occurrence, and the range between two nodes no longer contains their LCA", mod, st)
     else:
         res.fail(construct, "the tour is not scanned forwards with enumerate(self.traversal)", mod, st)
+    # (1b) the tour is the tour of the tree given to the constructor
+    construct = f"{TREES}:LowestCommonAncestor.__init__/tour-source"
+    tparam = [p for p in func_params(init) if p != "self"][0]
+    tours = [c for c in walk_no_nested(init) if isinstance(c, ast.Call) and dotted(c.func) == "_euler_tour"]
+    rebound = any(isinstance(x, ast.Name) and x.id == tparam and not isinstance(x.ctx, ast.Load) for x in ast.walk(init))
+    if len(tours) == 1 and tours[0].args and dotted(tours[0].args[0]) == tparam and not rebound:
+        res.ok(construct, f"_euler_tour({tparam}) of the constructor's own tree")
+    else:
+        shown = short(tours[0]) if tours else "no tour"
+        res.fail(construct, f"the tour is `{shown}`, not the tour of the whole tree `{tparam}` given to the constructor: nodes outside it have no index and every level is shifted", mod, tours[0] if tours else init)
     # (2) range = [min, max + 1)
     construct = f"{TREES}:LowestCommonAncestor.__call__/range"
     q = [c for c in walk_no_nested(call) if isinstance(c, ast.Call) and dotted(c.func) == "self.range_min_query"]
@@ -331,6 +352,15 @@ def rmq_windows(prog: Program) -> RuleResult:
         res.ok(construct, f"None exactly when {a} >= {b}")
     else:
         res.fail(construct, f"the empty-range answer is not guarded by `{a} >= {b}` (a one-element range is not empty, an empty one must not index the table)", mod, call)
+    construct = f"{RMQ}:RangeMinQuery.__call__/bounds-as-given"
+    rebinds = [
+        st for st in walk_no_nested(call)
+        if isinstance(st, (ast.Assign, ast.AugAssign)) and any(dotted(t) in (a, b) for t in (st.targets if isinstance(st, ast.Assign) else [st.target]))
+    ]
+    if rebinds:
+        res.fail(construct, f"`{short(rebinds[0])}` changes a bound of the requested range before it is used: the minimum returned is not that of [{a}, {b}) as asked (a stop equal to the length is a legitimate bound)", mod, rebinds[0])
+    else:
+        res.ok(construct, f"{a} and {b} are used as given")
     construct = f"{RMQ}:RangeMinQuery.__call__/windows"
     depth_name = None
     for st in walk_no_nested(call):
